@@ -202,8 +202,11 @@ func genPrefix(r *Rng) []byte {
 }
 
 func genTail(r *Rng) []byte {
-	if r.Chance(0.15) {
+	switch {
+	case r.Chance(0.15):
 		return r.Bytes(r.Intn(4))
+	case r.Chance(0.5):
+		return tails[1+r.Intn(6)] // the keys most likely to be present
 	}
 	return tails[r.Intn(len(tails))]
 }
@@ -306,7 +309,6 @@ func monitorHistory(r *Rng, steps int, report func(Violation)) {
 		op := genOp(r)
 		history = append(history, op)
 		before := toMap(dump(w.subject))
-		directSubject, directSubst := dump(w.subject), dump(w.substitute)
 		out := w.apply(op)
 		viol := func(key, what string) {
 			report(Violation{Property: "C29", What: what, Input: M{"requests": append([]M{}, history...), "key": key}, Observed: out})
@@ -357,21 +359,21 @@ func monitorHistory(r *Rng, steps int, report func(Violation)) {
 			}
 		}
 		// reads: routed by prefix; anything else reads as empty
-		route := func(k []byte) (storetypes.KVStore, []byte) {
+		stores := []storetypes.KVStore{nil, w.subject, w.substitute}
+		route := func(k []byte) (int, []byte) {
 			if bytes.HasPrefix(k, subjPfx) {
-				return w.subject, k[len(subjPfx):]
+				return 1, k[len(subjPfx):]
 			}
 			if bytes.HasPrefix(k, substPfx) {
-				return w.substitute, k[len(substPfx):]
+				return 2, k[len(substPfx):]
 			}
-			return nil, nil
+			return 0, nil
 		}
-		_ = directSubject
-		_ = directSubst
 		switch f {
 		case "get", "has":
-			st, k := route(hx(op, "k"))
-			if st == nil {
+			sti, k := route(hx(op, "k"))
+			st := stores[sti]
+			if sti == 0 {
 				if (f == "get" && out["v"] != nil) || (f == "has" && out["b"] != false) {
 					viol("unprefixed-read-nonempty", "a key without the subject/ or substitute/ prefix did not read as empty")
 					return
@@ -393,7 +395,7 @@ func monitorHistory(r *Rng, steps int, report func(Violation)) {
 			s1, a := route(hx(op, "s"))
 			s2, b := route(hx(op, "e"))
 			items, _ := out["items"].([][2]string)
-			if s1 == nil || s2 == nil || s1 != s2 {
+			if s1 == 0 || s2 == 0 || s1 != s2 {
 				if out["r"] == "items" && len(items) != 0 {
 					viol("inconsistent-range-nonempty", "an iteration range without one consistent prefix did not read as empty")
 					return
@@ -401,9 +403,9 @@ func monitorHistory(r *Rng, steps int, report func(Violation)) {
 			} else if out["r"] == "items" {
 				var want [][2]string
 				if f == "iter" {
-					want = drain(s1.Iterator(a, b))
+					want = drain(stores[s1].Iterator(a, b))
 				} else {
-					want = drain(s1.ReverseIterator(a, b))
+					want = drain(stores[s1].ReverseIterator(a, b))
 				}
 				if !eqPairs(want, items) {
 					viol("read-misrouted", "iteration was not routed to the store named by the range prefix")
